@@ -913,6 +913,37 @@ def m_array(I, ctx, callee, args, crate):
     return VecV([I.call_value(ctx, args[1], [x]) for x in v.items])
 
 
+@M.on(r"^(std|core)::iter::(from_fn|once|once_with|empty|repeat|repeat_n|successors|zip)$")
+def m_iter_sources(I, ctx, callee, args, crate):
+    meth = strip_generics(callee).split("::")[-1]
+    if meth == "from_fn":
+        f = args[0]
+        return IterV(lambda I2, c2: I2.force(c2, I2.call_value(c2, f, [])))
+    if meth == "once": return make_iter([args[0]])
+    if meth == "once_with": return make_iter([I.call_value(ctx, args[0], [])])
+    if meth == "empty": return make_iter([])
+    if meth == "repeat": return IterV(lambda I2, c2: Some(args[0]))
+    if meth == "repeat_n":
+        n = args[1] if isinstance(args[1], int) else ctx.concretize_int(args[1], 0, RANGE_LIMIT, "repeat_n", beyond="unsupported")
+        return make_iter([args[0]] * n)
+    if meth == "successors":
+        st = {"cur": I.force(ctx, args[0])}
+        def nxt(I2, c2):
+            cur = st["cur"]
+            if cur.variant == "None": return NONE
+            st["cur"] = I2.force(c2, I2.call_value(c2, args[1], [Ref(Cell("succ", cur.fields[0]))]))
+            return cur
+        return IterV(nxt)
+    a, b = get_iter(I, ctx, args[0]), get_iter(I, ctx, args[1])
+    def nxt(I2, c2):
+        x = a.next(I2, c2)
+        if x.variant == "None": return NONE
+        y = b.next(I2, c2)
+        if y.variant == "None": return NONE
+        return Some((x.fields[0], y.fields[0]))
+    return IterV(nxt)
+
+
 @M.on(r"^(core::)?bool::(then_some|then)$")
 def m_bool_then(I, ctx, callee, args, crate):
     c = args[0]
